@@ -127,6 +127,18 @@ CHECKS['C06'] = dict(
     technique='symbolic execution of the Python source + formal differentiation of the symbolic FK + Z3 per path',
 )
 
+CHECKS['C13'] = dict(
+    level='model_checking',
+    text='Symbolic execution of the real loadArmFromURDF (with the real xml.etree parser) on generated URDF files whose numeric '
+         'slots are symbols: every xyz / rpy / axis value of the file becomes a symbolic input through the loader\'s own '
+         'string-to-number conversions, the chain structure (1..3 moving joints, fixed joints before/between/after, world link, '
+         'inertial data, each optional element omitted in turn) is enumerated; the loaded arm\'s FK at symbolic joint values must '
+         'equal the file\'s own semantics (origin transforms with fixed-axis rpy, rotation about the axis, fixed joints folded), '
+         'with dof, joint order, names and limits as written. Bundled URDFs: concrete sampling against an independent XML reading.',
+    design='5/C13',
+    technique='symbolic execution of the Python source with symbol-valued file literals + Z3 per path; structures enumerated',
+)
+
 NOT_APPLICABLE = {
 }
 
